@@ -1,6 +1,7 @@
 package main
 
 import (
+	"time"
 	"archive/tar"
 	"bytes"
 	"compress/gzip"
@@ -115,6 +116,21 @@ func alterWare(c *Ctx, stored []byte, mut string, other []byte) []byte {
 			h := &tar.Header{Name: "./zz-added", Typeflag: tar.TypeReg, Mode: 0644, ModTime: hs[0].ModTime}
 			return append(hs, h), append(bs, []byte("extra"))
 		}))
+	case "twomember", "twomember-same":
+		// a two-member gzip (RFC 1952: the stream is the concatenation): member 1 = the original entries without the
+		// end-of-archive blocks, member 2 = an added entry (or nothing) + end-of-archive
+		body := raw
+		for len(body) >= 512 && bytes.Equal(body[len(body)-512:], make([]byte, 512)) {
+			body = body[:len(body)-512]
+		}
+		var m2 bytes.Buffer
+		tw := tar.NewWriter(&m2)
+		if f[0] == "twomember" {
+			tw.WriteHeader(&tar.Header{Name: "./zz-smuggled", Typeflag: tar.TypeReg, Mode: 0644, Size: 5, ModTime: time.Unix(1e9, 0), Format: tar.FormatPAX})
+			tw.Write([]byte("extra"))
+		}
+		tw.Close()
+		return append(gz(body), gz(m2.Bytes())...)
 	case "adddir": // an explicit entry for an already described directory, with other attributes
 		return gz(retar(raw, func(hs []*tar.Header, bs [][]byte) ([]*tar.Header, [][]byte) {
 			h := *hs[0]
@@ -272,6 +288,22 @@ func fetchExec(c *Ctx, op string) {
 			}
 		}
 	}
+	// ---- the unfiltered hash is what is verified: asking the same warehouse for the *filtered* id (it serves W's bytes
+	// at that address) with the same altering filter must be refused, although the filtered fileset does hash to the request
+	if ufStr != losslessUnpackStr && mut == "none" && pan3 == "" && err3 == nil && id3 != id {
+		os.WriteFile(storedWarePath(whKind, whDir, id3), stored, 0644) // (for a CA warehouse: W's bytes filed under the filtered id)
+		os.MkdirAll(filepath.Dir(storedWarePath(whKind, whDir, id3)), 0755)
+		os.WriteFile(storedWarePath(whKind, whDir, id3), stored, 0644)
+		os.Setenv("RIO_CACHE", filepath.Join(base, "cache2"))
+		id6, err6, pan6 := safeCall(func() (api.WareID, error) {
+			return tartrans.Unpack(ctx, id3, filepath.Join(base, "dst2"), uf, rio.Placement_Direct, []api.WarehouseLocation{whAddr(whKind, whDir)}, rio.Monitor{})
+		})
+		os.Setenv("RIO_CACHE", cache)
+		if r6 := resTok(id6, err6, pan6); strings.HasPrefix(r6, "ok") {
+			c.PropFail("filtered-id-accepted", fmt.Sprintf("a ware whose unfiltered hash is %s was accepted as %s (the id of its filtered image) under an altering filter", id.Hash, id3.Hash), op)
+		}
+		c.H("filtered-id-request")
+	}
 	c.H("mut:" + strings.Split(mut, ":")[0] + ":" + strings.Fields(res)[0])
 	// ---- mirror of the (altered) ware into a second warehouse
 	before2, _ := os.ReadFile(warePath)
@@ -401,7 +433,7 @@ func fetchEngine(c *Ctx) {
 	if c.Tier == "thorough" {
 		n = 150
 	}
-	muts := []string{"none", "recompress", "plain", "pad:2", "reorder", "flip", "flip", "flip", "trunc", "trunc", "truncgz", "substitute", "dropentry", "addentry", "adddir", "modattr", "modattr", "modcontent"}
+	muts := []string{"none", "recompress", "plain", "pad:2", "reorder", "flip", "flip", "flip", "trunc", "trunc", "truncgz", "substitute", "dropentry", "addentry", "twomember", "twomember-same", "adddir", "modattr", "modattr", "modcontent"}
 	modes := []string{"direct", "copy", "none", "mount"}
 	for k := 0; k < n; k++ {
 		fsx := c.GenFileset(GenOpts{MaxEntries: 7, Kinds: "fffdLp", SubSecond: false, BigIds: false, Setid: false, MaxContent: 1500})
